@@ -1033,3 +1033,24 @@ pub fn typed_string_message(rng: &mut Rng, i: u64) -> Message {
         _ => Message::Msg1029(Msg1029T { reference_station_id: 1, modified_julian_day_number: 2, seconds_of_day_s: 3, text_str: ArrayString::<255>::from(txt(rng).as_str()) }),
     }
 }
+
+/// "The builder was used before": build `d` on it; when `d` is a MsgNotSupported whose number is a supported one, it stands
+/// for a call of the crate's own `build_generated_message` (feature test_gen) for that number — the other public way to use
+/// a builder. The outcome of this first use is ignored.
+pub fn use_builder_before(b: &mut MessageBuilder, d: &Message) {
+    if let Message::MsgNotSupported(t) = d {
+        if registry::is_supported(t.message_number) {
+            let n = t.message_number;
+            let _ = std::panic::catch_unwind(std::panic::AssertUnwindSafe(|| {
+                let mut vg = rtcm_rs::val_gen::ValGen::new(
+                    RandAdapter { rng: Rng::new(n as u64 * 3 + 1), max_per_1024: 0 },
+                    RandAdapter { rng: Rng::new(n as u64 * 5 + 2), max_per_1024: 0 },
+                    RandAdapter { rng: Rng::new(n as u64 * 7 + 3), max_per_1024: 0 },
+                );
+                let _ = b.build_generated_message(&mut vg, n).map(|f| f.len());
+            }));
+            return;
+        }
+    }
+    let _ = b.build_message(d).map(|f| f.len());
+}
